@@ -57,14 +57,14 @@ class Decl:
 
 
 class SchemaGen:
-    def __init__(self, rng, size=None, tl2=None):
+    def __init__(self, rng, size=None, tl2=None, cycle=None):
         self.r = rng
         self.decls = []
         self.used = set()
         n = size if size is not None else rng.range(2, 10)
         for i in range(n):
             self.add_decl()
-        if rng.chance(1, 3):
+        if cycle if cycle is not None else rng.chance(1, 3):
             self.add_cycle()
         nf = rng.range(0, 3)
         for i in range(nf):
@@ -201,10 +201,16 @@ class SchemaGen:
                 return
             self.used.add(key)
             ds.append(Decl(ns, "cyc%d" % i, "struct"))
+        star = r.chance(1, 2)   # star: one type imports all others and is imported by them (cycle merging order matters)
         for i, d in enumerate(ds):
             nxt = ds[(i + 1) % n]
             link = r.choice(["(vector %s)" % nxt.tname, "(Maybe %s)" % nxt.tname, "(vector %s)" % nxt.cname])
             extra = "back:(vector %s)" % ds[r.below(n)].tname if r.chance(1, 2) else "v:int"
+            if star:
+                if i == 0:
+                    extra += " " + " ".join("s%d:(Maybe %s)" % (j, ds[j].cname) for j in range(1, n))
+                else:
+                    extra += " hub:(Maybe %s)" % ds[0].cname
             d.ctors = [(d.cname, "m:# nxt:%s opt:m.0?%s %s" % (link, nxt.tname, extra))]
             self.decls.append(d)
 
@@ -319,3 +325,57 @@ def mutate(text, rng):
     else:           # self-referential loop (lead L8) or explicit zero tag
         lines.insert(i, rng.choice(["loopA x:loopA = LoopA;", "zeroTag#00000000 = ZeroTag;", "selfRef a:SelfRef = SelfRef;"]))
     return "\n".join(lines)
+
+
+# ---------------------------------------------------------------- import cycles for --split-internal (C15)
+CYCLE_PRE = ("int#a8509bda ? = Int;\nstring#b5286e24 ? = String;\nvector#1cb5c415 {t:Type} # [t] = Vector t;\n"
+             "resultFalse#27930a7b {t:Type} = Maybe t;\nresultTrue#3f9c8ef8 {t:Type} t = Maybe t;\n")
+
+
+def cycle_schema(shape, n, link="maybe", spread=True, extra=0):
+    """n mutually recursive struct types, each in its own namespace (so each starts in its own internal package) unless
+    spread is False.  shape: star (t0 <-> every other), ring (t0 -> t1 -> … -> t0), full (everyone -> everyone),
+    ringchord (ring + t0 -> t2).  link: maybe | vector | mask | mixed."""
+    names = [("n%d.t%d" % (i, i) if spread else "t%d" % i) for i in range(n)]
+    tn = [x.split(".")[0] + "." + x.split(".")[1].capitalize() if "." in x else x.capitalize() for x in names]
+    edges = {i: [] for i in range(n)}
+    if shape == "star":
+        for i in range(1, n):
+            edges[0].append(i)
+            edges[i].append(0)
+    elif shape == "ring":
+        for i in range(n):
+            edges[i].append((i + 1) % n)
+    elif shape == "ringchord":
+        for i in range(n):
+            edges[i].append((i + 1) % n)
+        edges[0].append(2 % n)
+    else:
+        for i in range(n):
+            edges[i] = [j for j in range(n) if j != i]
+    out = [CYCLE_PRE]
+    for i in range(n):
+        fs = ["x:int"]
+        for k, j in enumerate(edges[i]):
+            kind = link if link != "mixed" else ["maybe", "vector", "mask"][(i + k) % 3]
+            if kind == "maybe":
+                fs.append("f%d:(Maybe %s)" % (j, names[j]))
+            elif kind == "vector":
+                fs.append("f%d:(vector %s)" % (j, tn[j]))
+            else:
+                fs.append("m%d:# f%d:m%d.0?%s" % (j, j, j, tn[j]))
+        out.append("%s %s = %s;\n" % (names[i], " ".join(fs), tn[i]))
+    for e in range(extra):   # users of the cycle outside it (factory / vector wrappers importing the cycle package)
+        out.append("user%d v:(vector %s) w:(Maybe %s) = User%d;\n" % (e, tn[e % n], names[(e + 1) % n], e))
+    return "".join(out)
+
+
+def cycle_corpus():
+    res = []
+    for shape in ("star", "ring", "ringchord", "full"):
+        for n in (3, 4):
+            for link in ("maybe", "vector", "mixed"):
+                res.append(("%s%d-%s" % (shape, n, link), cycle_schema(shape, n, link, True, extra=1)))
+    res.append(("star3-flat", cycle_schema("star", 3, "maybe", False, 0)))
+    res.append(("star5-mask", cycle_schema("star", 5, "mask", True, 2)))
+    return res
